@@ -254,8 +254,9 @@ class Action:
                 self.flow_scope_count = 0
             elif "Start" in event.name:
                 self.context.update(event.arguments)
-                self.status = ActionStatus.STARTING
-                self.flow_scope_count = 1
+                if self.status in (ActionStatus.INITIALIZED, ActionStatus.FINISHED):
+                    self.status = ActionStatus.STARTING
+                    self.flow_scope_count = 1
             elif "Stop" in event.name:
                 self.context.update(event.arguments)
                 self.status = ActionStatus.STOPPING
